@@ -116,3 +116,69 @@ def run(model: Model, rep: Report) -> None:
     r4.check(len(masks) == 2 and masks[0] == masks[1] == (128, 64, 32, 16, 8, 4, 2, 1), site(ol), ol.qualname, "bits are read and written most significant first", why=f"{masks}")
     s4 = "".join(unparse(ol.node).split())
     r4.check("ifself.reversed:bits=[1-bforbinbits]" in s4 and "arr[i//8]+=" in s4 and "(len(bits)+7)//8" in s4, site(ol), ol.qualname, "rows are packed into ceil(width / 8) bytes; BlackIs1 inverts every bit", why="row packing changed")
+    _mode_geometry(model, rep)
+
+
+def _mode_geometry(model: Model, rep: Report) -> None:
+    """C19-R5: the changing-element searches of the vertical and pass modes."""
+    import copy
+
+    from .tokenizer import _guard_tests
+
+    r5 = rep.rule("C19-R5", "GUARD", "reference-line look-behind `refline[x - k]` is never evaluated at x < k (a negative index silently wraps to the end of the row); the b1 searches of vertical and pass mode agree, and the b2 search is its colour-dual", 6)
+    fv = model.func(C + "CCITTG4Parser._do_vertical")
+    fp = model.func(C + "CCITTG4Parser._do_pass")
+    n_sub = 0
+    for f in (fv, fp):
+        for n in walk_no_nested(f.node):
+            if not (isinstance(n, ast.Subscript) and isinstance(n.ctx, ast.Load) and unparse(n.value) in ("self._refline", "self._curline")):
+                continue
+            ix = n.slice
+            if not (isinstance(ix, ast.BinOp) and isinstance(ix.op, ast.Sub) and isinstance(ix.right, ast.Constant) and isinstance(ix.right.value, int) and ix.right.value > 0):
+                continue
+            n_sub += 1
+            v, k = unparse(ix.left), ix.right.value
+            guards = list(_guard_tests(f, n))
+            # earlier operands of an enclosing `and` hold, of an enclosing `or` do not, when the subscript is evaluated
+            for b in walk_no_nested(f.node):
+                if isinstance(b, ast.BoolOp):
+                    for i, val in enumerate(b.values):
+                        if i and any(x is n for x in ast.walk(val)):
+                            guards += [(e, isinstance(b.op, ast.And)) for e in b.values[:i]]
+            ok = False
+            for t, pol in guards:
+                tt = "".join(unparse(t).split())
+                if not pol and k == 1 and tt in (f"{v}==0", f"0=={v}", f"{v}<=0", f"{v}<1"):
+                    ok = True
+                if pol and tt in (f"{v}>{k - 1}", f"{v}>={k}", f"{k - 1}<{v}", f"{k}<={v}") or pol and k == 1 and tt in (f"{v}!=0", f"{v}"):
+                    ok = True
+            r5.check(ok, site(f, n), f.qualname, f"`{unparse(n)}` is evaluated only where {v} >= {k}", why=f"enclosing tests: {[('' if p else 'not ') + unparse(t)[:40] for t, p in guards]}; at {v} == 0 the index -1 reads the last pixel of the reference row, so a row whose reference starts and ends in the current colour finds b1 at position 0")
+    if n_sub < 3:
+        raise AnchorMissing("CCITT mode functions: look-behind subscripts not found")
+    lv = [n for n in fv.node.body if isinstance(n, ast.While)]  # type: ignore[attr-defined]
+    lp = [n for n in fp.node.body if isinstance(n, ast.While)]  # type: ignore[attr-defined]
+    if len(lv) != 1 or len(lp) != 2:
+        raise AnchorMissing("CCITT mode functions: search loops not found")
+    r5.check(unparse(lv[0]) == unparse(lp[0]), site(fp, lp[0]), fp.qualname, "pass mode finds b1 with the same search as vertical mode", why="the two b1 searches differ: vertical and pass mode would disagree about the first changing element of the reference row")
+
+    class Dual(ast.NodeTransformer):
+        def visit_Compare(self, node: ast.Compare) -> ast.AST:
+            self.generic_visit(node)
+            s = unparse(node)
+            if "self._refline[" in s and "self._color" in s and len(node.ops) == 1:
+                if isinstance(node.ops[0], ast.Eq):
+                    node.ops = [ast.NotEq()]
+                elif isinstance(node.ops[0], ast.NotEq):
+                    node.ops = [ast.Eq()]
+            elif unparse(node.left) == "self._color" and isinstance(node.comparators[0], ast.Constant) and node.comparators[0].value in (0, 1):
+                node.comparators = [ast.Constant(1 - node.comparators[0].value)]
+            return node
+
+    dual = unparse(Dual().visit(copy.deepcopy(lp[0])))
+    r5.check(dual == unparse(lp[1]), site(fp, lp[1]), fp.qualname, "b2 is found by the colour-dual of the b1 search (next change to the current colour)", why="the second search is not the dual of the first")
+    # the searches start right of the current position and vertical applies the offset before clamping to [0, width]
+    sv = "".join(unparse(fv.node).split())
+    okv = "x1=self._curpos+1" in sv and sv.index("x1+=dx") < sv.index("x1=max(0,min(self.width,x1))") and "x0=max(0,self._curpos)" in sv
+    r5.check(okv, site(fv), fv.qualname, "vertical mode: a1 = b1 + offset, clamped to the row; the run starts at a0", why="offset/clamp changed")
+    sp = "".join(unparse(fp.node).split())
+    r5.check("x1=self._curpos+1" in sp and "forxinrange(self._curpos,x1):self._curline[x]=self._color" in sp and sp.rstrip().endswith("self._curpos=x1"), site(fp), fp.qualname, "pass mode: pixels up to b2 take the current colour, a0 moves to b2, the colour is kept", why="pass mode body changed")
